@@ -36,7 +36,7 @@ func init() {
 			{ID: "O6", Floor: 1, Doc: "a worker forwards one result per block it receives, however few elements the skip flags and filters leave", Run: c08O6},
 			{ID: "O5", Floor: 5, Doc: "reused element storage is never re-exposed: element slices are only re-sliced to [:0], grown by append of whole elements, or replaced by make", Run: c08O5},
 		},
-		Benign: append(append(append([]core.Mutant{}, c08Benign...), c08Benign2...), c08Benign3...),
+		Benign: append(append(append(append([]core.Mutant{}, c08Benign...), c08Benign2...), c08Benign3...), c08Benign4...),
 		Mutants: []core.Mutant{
 			{Name: "way-not-renewed-after-append", File: "osmpbf/decode_data.go", Find: "\t\t\t\tdec.q = append(dec.q, way)\n\t\t\t\tway = &osm.Way{Visible: true}\n", Replace: "\t\t\t\tdec.q = append(dec.q, way)\n", ExpectRule: "O1", ExpectConstruct: "way"},
 			{Name: "relation-renewed-before-append-only", File: "osmpbf/decode_data.go", Find: "\t\t\t\tdec.q = append(dec.q, relation)\n\t\t\t\trelation = &osm.Relation{Visible: true}\n", Replace: "\t\t\t\tdec.q = append(dec.q, relation)\n\t\t\t\trelation.Tags = relation.Tags[:0]\n\t\t\t\trelation = &osm.Relation{Visible: true}\n", ExpectRule: "O1", ExpectConstruct: "relation"},
